@@ -43,8 +43,15 @@ DIRECTED = [
 ]
 
 
+def regen_clisrc():
+    from translate import clisrc
+    clisrc.generate()           # CmGen/CliSrc.lean: path handling, target ratio, dispatch literals of cli/main.py as they read now (CmProps/C08src.lean)
+
+
 def check(run):
-    run.proof = proof_status("C08")
+    run.proof = proof_status("C08", regenerate=regen_clisrc)
+    from translate import clisrc as _cs
+    run.extra["source_translation"] = _cs.summary()
     q = run.quick()
     repo_import()
     from cm_colors import ColorPair
